@@ -53,6 +53,9 @@ class StreamBuffer:
         self._closed = False
         self._is_empty = event_class()
         self._paused = event_class()
+        # Sent in place of the empty end of the stream, see
+        # H2Protocol._end_stream
+        self.trailers: List[Tuple[bytes, bytes]] = []
 
     async def drain(self) -> None:
         if self._complete and not self._closed:
@@ -192,7 +195,7 @@ class H2Protocol:
             if self.stream_buffers[stream_id].complete and not self.closed:
                 # (A connection closed whilst flushing has discarded
                 # what was still buffered, the response did not end.)
-                self.connection.end_stream(stream_id)
+                self._end_stream(stream_id)
                 await self._flush()
                 # The stream has ended, which is what a sender of
                 # the end of the body is waiting for.
@@ -219,6 +222,17 @@ class H2Protocol:
                 self.priority = priority.PriorityTree()
                 for buffered_stream_id in self.stream_buffers:
                     self.priority.insert_stream(buffered_stream_id)
+
+    def _end_stream(self, stream_id: int) -> None:
+        trailers = self.stream_buffers[stream_id].trailers
+        if len(trailers) > 0:
+            # HTTP/2 trailers are a HEADERS frame that ends the
+            # stream, h2 refuses (and should not be offered) any
+            # other, so they are sent here, after the body, instead
+            # of the empty DATA frame.
+            self.connection.send_headers(stream_id, trailers, end_stream=True)
+        else:
+            self.connection.end_stream(stream_id)
 
     async def handle(self, event: Event) -> None:
         if isinstance(event, RawData):
@@ -260,8 +274,10 @@ class H2Protocol:
                 await self.has_data.set()
                 await self.stream_buffers[event.stream_id].drain()
             elif isinstance(event, Trailers):
-                self.connection.send_headers(event.stream_id, event.headers)
-                await self._flush()
+                # Kept until the body has been sent, they end the
+                # stream (all the trailers of a response form one
+                # HEADERS frame).
+                self.stream_buffers[event.stream_id].trailers.extend(event.headers)
             elif isinstance(event, StreamClosed):
                 if event.stream_id not in self.streams:
                     # Already closed (reset by the client, or the
